@@ -709,6 +709,69 @@ def absRoot (st : St) (fuel : Nat) : Option Addr → Option (Option Node)
   | none => some none
   | some a => (abs st fuel a).map some
 
+/-! ## The system: one `MutableTree`, its node DB, and the root handles readers hold -/
+
+/-- The tree object, the shared heap/DB/cache, and the root handles of the `ImmutableTree`s /
+lazily loaded trees that were handed out and are still held (oldest first). -/
+structure Sys where
+  st : St := {}
+  tree : MT := {}
+  views : List (Option Addr) := []
+
+/-- Operations of a history, reads included (they allocate and touch the node cache). -/
+inductive HOp where
+  | set (k v : Bytes)
+  | remove (k : Bytes)
+  | save
+  | rollback
+  | workingHash
+  | getImmutable (v : Nat)
+  | lazyLoad (target : Int)
+  | readWorking (r : Read)
+  | readView (i : Nat) (r : Read)
+  deriving Repr, DecidableEq
+
+/-- What an operation answers. -/
+inductive HOut where
+  | updated (b : Bool)
+  | removed (v : Option Bytes) (b : Bool)
+  | saved (r : SaveRes)
+  | unit
+  | hash (h : Option Hash)
+  | opened (ok : Bool)
+  | read (res : Option ReadResult)
+  deriving Repr, DecidableEq
+
+/-- One operation on the system (`none` = panic / out of fuel / outside the modelled behaviour). -/
+def stepH (cfg : Cfg) (fuel : Nat) (sys : Sys) : HOp → Option (Sys × HOut)
+  | .set k v => (set cfg fuel sys.st sys.tree k v).map (fun r => ({ sys with st := r.1, tree := r.2.1 }, .updated r.2.2))
+  | .remove k =>
+    (remove cfg fuel sys.st sys.tree k).map (fun r => ({ sys with st := r.1, tree := r.2.1 }, .removed r.2.2.1 r.2.2.2))
+  | .save => (saveVersion H fuel sys.st sys.tree).map (fun r => ({ sys with st := r.1, tree := r.2.1 }, .saved r.2.2))
+  | .rollback => some ({ sys with tree := rollback sys.tree }, .unit)
+  | .workingHash => (workingHash H fuel sys.st sys.tree).map (fun r => ({ sys with st := r.1 }, .hash r.2))
+  | .getImmutable v =>
+    (getImmutable sys.st v).map (fun r => match r.2 with
+      | .view root _ => ({ sys with st := r.1, views := sys.views ++ [root] }, .opened true)
+      | _ => ({ sys with st := r.1 }, .opened false))
+  | .lazyLoad target =>
+    (lazyLoadVersion sys.st target).map (fun r => match r.2 with
+      | .view root _ => ({ sys with st := r.1, views := sys.views ++ [root] }, .opened true)
+      | _ => ({ sys with st := r.1 }, .opened false))
+  | .readWorking r => (readRootH fuel sys.st sys.tree.root r).map (fun x => ({ sys with st := x.1 }, .read (some x.2)))
+  | .readView i r =>
+    match sys.views[i]? with
+    | none => some (sys, .read none)
+    | some h => (readRootH fuel sys.st h r).map (fun x => ({ sys with st := x.1 }, .read (some x.2)))
+
+/-- A history on the heap model; the answers in order. -/
+def runH (cfg : Cfg) (fuel : Nat) : Sys → List HOp → Option (Sys × List HOut)
+  | sys, [] => some (sys, [])
+  | sys, op :: rest =>
+    match stepH H cfg fuel sys op with
+    | none => none
+    | some (sys', out) => (runH cfg fuel sys' rest).map (fun r => (r.1, out :: r.2))
+
 /-! ## The write-once discipline (decidable; the run-time monitor of `Driver/C09b.lean` evaluates it on
 the real heap, `Proofs.Store.IavlHeap` proves it of every operation above) -/
 
